@@ -173,6 +173,7 @@ func (n *numbering) of(s string) int {
 // ready for the next one): reuse must give the same well-formed result as a fresh builder
 var c19Reused *schema.ProcessBuilder
 var c19Builds int
+var c19Layouts int
 
 func c19BuildProcess(acts []int, presets []string) (*schema.Process, []string) {
 	c19Builds++
@@ -263,9 +264,18 @@ func c19Layout(rep *Report, procs []*schema.Process, cfg *schema.AutoLayoutConfi
 	for _, p := range procs {
 		db.AddProcess(*p)
 	}
+	// every third layout is a re-layout: the builder is first laid out with another configuration (trying one,
+	// then settling on `cfg`); the result must be the layout of `cfg` alone
+	c19Layouts++
+	relayout := c19Layouts%3 == 0
+	if relayout {
+		other := *cfg
+		other.StartX, other.StartY = other.StartX+37, other.StartY+53
+		db.AutoLayout(&other)
+	}
 	db.AutoLayout(cfg)
 	defs := db.Out()
-	cs := fmt.Sprintf("layout %s cfg=%+v", label, *cfg)
+	cs := fmt.Sprintf("layout %s cfg=%+v laid-out-twice=%v", label, *cfg, relayout)
 	if defs.DiagramField == nil || defs.DiagramField.BPMNPlane() == nil {
 		rep.Violate("C19-layout", cs, "no diagram produced")
 		return ""
